@@ -14,10 +14,10 @@ PROP = dict(
         "MM.C17.C17_agent_disconnect_clean",
         "MM.C17.C17_pinned_udp_leak",
         "MM.C17.C17_count_matches",
-        "MM.C17.C17_partial",
+        "MM.C17.C17_handlers_return_to_empty",
+        "MM.C17.C17_late_teardown_spares_newer_record",
         "MM.C17.C17_failed_open_keeps_count",
         "MM.C17.C17_limit",
-        "MM.C17.C17_refuted",
         "MM.C17.C17_refuted_relay_orphan",
     ],
     spec=True,
@@ -37,7 +37,6 @@ PROP = dict(
     assumptions=[
         "idle timers are not modelled: a record whose destination never closes and whose peer never closes stays (by design until IdleTimeout)",
         "exit/forward handlers have no peer-disconnect hook; their records end by destination EOF, idle timeout or close/reset frames",
-        "C17_count_matches / C17_partial: `Distinct` histories (no open under a stream id that still has a record at that handler)",
     ],
     manifest=dict(
         category="proof",
